@@ -1,6 +1,6 @@
 (* C07 — all query front ends, cursors and groupby agree with find_jobs.
    Statements only; proofs in SV.C07Proofs. *)
-From SV Require Import Base Json PyVal Query Canon Front C07Proofs CorrC06 CorrC07.
+From SV Require Import Base Json PyVal Query Canon Front C07Proofs C07Order CorrC06 CorrC07.
 From Coq Require Import Permutation.
 
 (* nested mapping vs dotted key; with b = "$op" also operator-as-nested-mapping vs key suffix *)
@@ -78,9 +78,18 @@ Theorem C07_groupby_label_is_members_value : forall ls g i,
 Proof. exact groupby_label_is_members_value. Qed.
 Print Assumptions C07_groupby_label_is_members_value.
 
-(* NOT PROVED (groupby_partition, full statement): labels of different groups are pairwise different
-   under Python == when all labels are mutually orderable; it needs transitivity of Python's order on
-   nested values.  The correspondence oracle checks it on every observed grouping. *)
+(* groupby: for mutually orderable scalar labels (numbers, or strings) the groups' labels are strictly
+   increasing under Python's order, hence any two groups have different (Python ==) labels: together
+   with the two theorems above the groups partition the selected jobs by value. *)
+Theorem C07_groupby_labels_distinct_partial : forall ls g h pre mid post,
+  (forall y, In y ls -> scalar (fst y) = true) -> orderable (map fst ls) ->
+  group_adjacent (sort_labeled ls) None = pre ++ g :: mid ++ h :: post ->
+  py_eq (fst g) (fst h) = false.
+Proof. exact groupby_labels_distinct. Qed.
+Print Assumptions C07_groupby_labels_distinct_partial.
+
+(* _partial: labels that are lists (tuple keys) are not covered by the proof (lexicographic order);
+   the correspondence oracle checks label distinctness on every observed grouping. *)
 
 Example C07_example_tokens :
   parse_filter_arg (fun _ => None) (fun _ => None) [[97%N]; [52%N; 50%N]] = Ok (Some (JObj [([97%N], JInt 42)])).
